@@ -97,7 +97,10 @@ def run(ctx):
             txt = r.choice(['T154N-R97W NE/4 and the river bottom', 'Township 154 North, Range 97 West: all of it',
                             'T154N-R97W', 'T154N-R97W Section of land'])
             kind = 'no_sec'
-            cfg = None
+            cfg = r.choice([None, 'segment', 'segment,sec_within', 'sec_colon_cautious'])
+            if r.chance(1, 2):
+                txt = r.choice(['That part of T154N-R97W lying north of the river, together with the accretions in T155N-R97W Williams County',
+                                'T154N-R97W All lands lying south of the centerline of the river', txt])
         elif k == 2:
             tt, _, _ = descs.structured(r, max_tr=1, max_sg=1, layout='TRS_desc', colons=True, canonical_tr=True)
             txt = tt.replace(':', '')
